@@ -16,10 +16,12 @@ MaxOf(S) == IF S = {} THEN 0 ELSE CHOOSE x \in S : \A y \in S : y <= x
 GSpec  == Init /\ [][NextBuild]_vars
 
 \* one successor per state: keep inserting with probability 5/6 (up to MaxLen), else build.
-\* The draws are bound through singleton sets (a LET would re-draw at every reference).
-GStepR == \E r \in {RandomElement(1..6)} :
+\* The draws are bound through singleton sets (a LET would re-draw at every reference) and
+\* made state-dependent (TLC evaluates a constant-level expression only once).
+Fresh(S) == {RandomElement({x \in S : Len(defs) >= 0})}
+GStepR == \E r \in Fresh(1..6) :
               IF Len(defs) < MaxLen /\ r # 1
-              THEN \E d \in {RandomElement(Universe)} : AddInstrument(d)
+              THEN \E d \in Fresh(Universe) : AddInstrument(d)
               ELSE Build
 GSpecR == Init /\ [][GStepR]_vars
 
